@@ -25,7 +25,9 @@ COLMAX = 0x7FFF
 NUMS = [0, 1, 2, 10, 255, 10 ** 15, 10 ** 16, 123456789012345, Decimal("0.1"), Decimal("1.5"), Decimal("0.00001"), Decimal("1.25e16"), Decimal("1e16"), Decimal("1e-7"),
         Decimal("123456.789"), Decimal("1.5e16"), Decimal("2.5e-9"), Decimal("1e22"), Decimal("1.234e21"), Decimal("0.5"), Decimal("99.99"), Decimal("1e15"), Decimal("3.14159265358979"),
         # integers a double cannot hold: the stored literal is the integer (decimal128 coefficient), the double beside it only approximates it
-        2 ** 53 + 1, 12345678901234567, 2 ** 62 + 1, 999999999999999999]
+        2 ** 53 + 1, 12345678901234567, 2 ** 62 + 1, 999999999999999999,
+        # doubles that need 16 or 17 significant digits to be named (the literal is the stored double, not a rounded one)
+        Decimal("3.141592653589793"), Decimal("2.718281828459045"), Decimal("0.30000000000000004"), Decimal("0.7000000000000001"), Decimal("1234567.8901234567")]
 STRS = ["", "a", 'a"b', '""', "x,y", "(z)", "1+1", "it's", "{", "é😀", " sp ", "a;b", "}", "=", "A1", "TRUE", "line\nbreak", "%"]
 
 
